@@ -12,7 +12,8 @@
     NO load or store left the block / string table. *)
 From Coq Require Import NArith List Bool.
 From FF Require Import Lib.Word Gen.Consts_multiboot Multiboot.Model Multiboot.Spec Multiboot.MemLemmas
-  Multiboot.FindProofs Multiboot.MemMapProofs Multiboot.FbProofs Multiboot.CmdProofs Multiboot.ElfProofs Multiboot.Corollaries.
+  Multiboot.FindProofs Multiboot.MemMapProofs Multiboot.FbProofs Multiboot.CmdProofs Multiboot.ElfProofs Multiboot.Corollaries
+  Multiboot.AfterVisit Multiboot.AfterVisitProofs.
 Import ListNotations.
 Local Open Scope N_scope.
 
@@ -88,6 +89,47 @@ Proof.
         (conj (get_boot_cmdline_encode l mb H1 H2) (visit_elf_sections_encode l mb H1 H2)))).
 Qed.
 Print Assumptions C10_decode_encode.
+
+(** what the region scan leaves in memory: exactly the encoding of [after_visit cont mb] — the same
+    block with the type field of every visited entry of the first memory map normalised — ... *)
+Theorem C10_mem_regions_memory :
+  forall (l : layout) (mb : mbinfo) (cont : N -> region -> bool) (fuel : nat),
+    mbinfo_wf (l_saddr l) (l_strtab l) mb -> layout_wf l (encode mb) ->
+    (length (expected_regions mb) < fuel)%nat ->
+    visit_mem_regions fuel cont (mem_of l (encode mb)) (l_info l) =
+      (mem_of l (encode (after_visit cont mb)), visited cont 0 (expected_regions mb), Ok tt).
+Proof. intros l mb cont fuel H1 H2 H3. exact (visit_mem_regions_after l mb cont H1 H2 fuel H3). Qed.
+Print Assumptions C10_mem_regions_memory.
+
+(** ... which is again a well-formed block at the same place with the same content *)
+Theorem C10_after_visit_wellformed :
+  forall (l : layout) (mb : mbinfo) (cont : N -> region -> bool),
+    mbinfo_wf (l_saddr l) (l_strtab l) mb -> layout_wf l (encode mb) ->
+    mbinfo_wf (l_saddr l) (l_strtab l) (after_visit cont mb) /\ layout_wf l (encode (after_visit cont mb)) /\
+    expected_regions (after_visit cont mb) = expected_regions mb /\
+    expected_fb (after_visit cont mb) = expected_fb mb /\
+    expected_cmdline (after_visit cont mb) = expected_cmdline mb /\
+    expected_sections (l_strtab l) (after_visit cont mb) = expected_sections (l_strtab l) mb.
+Proof.
+  intros l mb cont H1 H2.
+  exact (conj (proj1 (after_visit_wf l mb cont H1 H2)) (conj (proj2 (after_visit_wf l mb cont H1 H2)) (after_visit_same l mb cont))).
+Qed.
+Print Assumptions C10_after_visit_wellformed.
+
+(** so every decoder run AFTER a region scan, on the memory it left behind, still reports exactly
+    the content of the block (this is the call sequence of the correspondence harness) *)
+Theorem C10_decoders_after_visit :
+  forall (l : layout) (mb : mbinfo) (cont cont' : N -> region -> bool) (fuel : nat),
+    mbinfo_wf (l_saddr l) (l_strtab l) mb -> layout_wf l (encode mb) ->
+    (length (expected_regions mb) < fuel)%nat ->
+    let m1 := fst (fst (visit_mem_regions fuel cont (mem_of l (encode mb)) (l_info l))) in
+    snd (fst (visit_mem_regions fuel cont' m1 (l_info l))) = visited cont' 0 (expected_regions mb) /\
+    snd (visit_mem_regions fuel cont' m1 (l_info l)) = Ok tt /\
+    framebuffer m1 (l_info l) = Ok (expected_fb mb) /\
+    get_boot_cmdline m1 (l_info l) = Ok (expected_cmdline mb) /\
+    visit_elf_sections m1 (l_info l) = (expected_sections (l_strtab l) mb, Ok tt).
+Proof. exact decoders_after_visit. Qed.
+Print Assumptions C10_decoders_after_visit.
 
 (** tag order is irrelevant: two well-formed blocks whose first tag of each decoded kind agree (e.g.
     any reordering that keeps the relative order of tags of the same kind, with any other tags
